@@ -1,6 +1,6 @@
 /-
 C15 — rebinning and resampling conserve counts and physical positions: the property theorems.
-Proofs are in `ProofsSSRB`, `ProofsGroup`, `ProofsData`, `ProofsTof`, `ProofsBins`, `ProofsTotal`, `ProofsPhi`, `ProofsZoom`, `ProofsInverse`, `ProofsViewgram`, `ProofsIdentity`; this file only states them.
+Proofs are in `ProofsSSRB`, `ProofsGroup`, `ProofsData`, `ProofsTof`, `ProofsBins`, `ProofsTotal`, `ProofsPhi`, `ProofsZoom`, `ProofsInverse`, `ProofsViewgram`, `ProofsIdentity`, `ProofsAxialGrid`, `ProofsVoxels`; this file only states them.
 
 Units: axial coordinate `m` in quarter ring spacings (`Seg.m4`), TOF positions in unmashed TOF bins, image coordinates in `ℚ`.
 -/
@@ -13,6 +13,8 @@ import StirVerif.C15.ProofsZoom
 import StirVerif.C15.ProofsInverse
 import StirVerif.C15.ProofsViewgram
 import StirVerif.C15.ProofsIdentity
+import StirVerif.C15.ProofsAxialGrid
+import StirVerif.C15.ProofsVoxels
 
 namespace StirVerif.C15
 open StirVerif.C01 Finset
@@ -30,7 +32,15 @@ All theorems of this section hold for every legal argument list, in particular f
 with a single segment and / or a single axial position per segment (one ring; direct sinograms only; span 1 with all ring differences;
 all ring differences in one segment): since round 3 the correspondence run drives the real `SSRB` overloads with exactly these argument
 lists and geometries (harness `run_ssrb_identity_like`, `gen_degenerate_cfg`), so the code these theorems are tied to now includes those
-paths; what the identity-like settings mean for the result is stated separately below (`C15_ssrb_identity_*`). -/
+paths; what the identity-like settings mean for the result is stated separately below (`C15_ssrb_identity_*`).
+
+Round 4: the axial coordinate `m` of the model is an exact integer number of quarter ring spacings, so every theorem of this section holds
+for ANY ring spacing; the correspondence run now drives the real `SSRB` overloads on the predefined scanners of `Scanner.cxx` with their
+true numbers of rings and ring spacings (6.54, 4.85, 3.29114, 5.56, 5.52296 … mm: not dyadic rationals, so the float quotient
+`m-range / axial sampling` of the source is not exact) and on generated scanners with such ring spacings and 2 … 64 rings, and compares
+the number of axial positions and the first / last `m` and the axial sampling in millimetres of every output segment (operation `ssrbm`)
+with the model.  What the axial bookkeeping must deliver for every ring spacing is stated in `C15_ssrb_number_of_ms_any_ring_spacing`,
+`C15_ssrb_no_input_position_lost`, `C15_ssrb_output_grid_spans_input`, `C15_ssrb_legal_request_served` below. -/
 
 /-- "puts the counts of every detector pair into the bin that the output geometry assigns to that pair" — the axial coordinate:
     in any segment whose axial positions sit on the physical rings, the `m` of the axial position assigned to ring pair `(r1, r2)`
@@ -195,6 +205,56 @@ theorem C15_ssrb_identity_data (p : PDI) (hsym : p.minSeg = -p.maxSeg) (hseg : 0
     (hbit : p.minTang ≤ bi.tang ∧ bi.tang ≤ p.maxTang) (hbif : p.minTof ≤ bi.tof ∧ bi.tof ≤ p.maxTof) :
     targets p p bi = [bi] :=
   ssrb_identity_targets p hsym hseg hnt hc wf mIn hmash hmIn hV htof0 htr dp hv bi hbi hbir hbit hbif
+
+/-! ### the axial grid of the output segments for ANY ring spacing (round 4)
+
+"total counts are conserved when no range is trimmed" / "puts the counts of every detector pair into the bin that the output geometry
+assigns to that pair" need the output segments of `SSRB(ProjDataInfo…)` to have exactly the axial positions of their input segments.
+The source finds their number from float millimetres (`number_of_ms = (max_m − min_m)/axial_sampling + 1`, SSRB.cxx:126-130); for a ring
+spacing that is not a dyadic rational the float quotient is an ulp off the integer, and the result must not depend on that. -/
+
+/-- the source's `number_of_ms`, evaluated EXACTLY in millimetres for any ring spacing `rs > 0`, is the integer number of axial positions
+    that the model (`ssrbOutSeg`, quarter ring spacings) gives the output segment: the ring spacing cancels.  So `round(number_of_ms) − 1` is
+    the last axial position whatever the scanner, and a conversion that turns a float quotient an ulp below the integer into one
+    position fewer is wrong for that scanner (the correspondence run compares the axial counts of every output segment). -/
+theorem C15_ssrb_number_of_ms_any_ring_spacing (p : PDI) (kSeg os : Int) (og : Seg)
+    (h : ssrbOutSeg p kSeg os = some og) (rs : ℚ) (hrs : 0 < rs) :
+    ∃ first grp, p.seg? (os * kSeg - kSeg.tdiv 2) = some first ∧
+      collect p.seg? (irange (os * kSeg - kSeg.tdiv 2) (os * kSeg + kSeg.tdiv 2)) = some grp ∧
+      ssrbNumberOfMs grp first og.inc rs = (og.numAx : ℚ) :=
+  ssrbNumberOfMs_is_numAx p kSeg os og h rs hrs
+
+/-- **no input sinogram without a receiving output sinogram**: every axial position of every input segment of the group of output
+    segment `os` has an axial position of the output segment with the same `m` — in quarter ring spacings and in millimetres for every
+    ring spacing.  (`SSRB(out, in)` moves sinograms by equal `m`: a position without a partner would lose its counts.) -/
+theorem C15_ssrb_no_input_position_lost (p : PDI) (kSeg os : Int) (og : Seg) (hk : 0 ≤ kSeg.tdiv 2)
+    (h : ssrbOutSeg p kSeg os = some og)
+    (wf : GroupWF p (os * kSeg - kSeg.tdiv 2) (os * kSeg + kSeg.tdiv 2))
+    (is : Int) (his : os * kSeg - kSeg.tdiv 2 ≤ is ∧ is ≤ os * kSeg + kSeg.tdiv 2) (sg : Seg) (hsg : p.seg? is = some sg)
+    (ia : Int) (hia : 0 ≤ ia ∧ ia < sg.numAx) :
+    ∃ oa, 0 ≤ oa ∧ oa < og.numAx ∧ og.m4 oa = sg.m4 ia ∧ ∀ rs : ℚ, og.mMm rs oa = sg.mMm rs ia :=
+  ssrbOutSeg_position_has_target_mm p kSeg os og hk h wf is his sg hsg ia hia
+
+/-- the output grid ends where the inputs end: the first / last axial position of the output segment has the smallest / largest `m` of
+    the axial positions of its input segments -/
+theorem C15_ssrb_output_grid_spans_input (p : PDI) (kSeg os : Int) (og : Seg) (hk : 0 ≤ kSeg.tdiv 2)
+    (h : ssrbOutSeg p kSeg os = some og)
+    (wf : GroupWF p (os * kSeg - kSeg.tdiv 2) (os * kSeg + kSeg.tdiv 2)) :
+    (∀ is sg, os * kSeg - kSeg.tdiv 2 ≤ is → is ≤ os * kSeg + kSeg.tdiv 2 → p.seg? is = some sg →
+        og.m4 0 ≤ sg.m4 0 ∧ sg.m4 (sg.numAx - 1) ≤ og.m4 (og.numAx - 1)) ∧
+    (∃ is sg, os * kSeg - kSeg.tdiv 2 ≤ is ∧ is ≤ os * kSeg + kSeg.tdiv 2 ∧ p.seg? is = some sg ∧
+        og.m4 0 = sg.m4 0 ∧ sg.m4 (sg.numAx - 1) = og.m4 (og.numAx - 1)) :=
+  ssrbOutSeg_ends p kSeg os og hk h wf
+
+/-- **a legal request is served**: when the input has all the (well-formed) segments of the group, the loop body of
+    `SSRB(ProjDataInfo…)` for that output segment does not call `error` — in exact arithmetic the m-range of the group is a whole
+    number of output samples, for every ring spacing (the harness demands the same of the implementation: `ssrbinfo` must not answer
+    `err` for a legal request). -/
+theorem C15_ssrb_legal_request_served (p : PDI) (kSeg os : Int) (hk : 0 ≤ kSeg.tdiv 2)
+    (wf : GroupWF p (os * kSeg - kSeg.tdiv 2) (os * kSeg + kSeg.tdiv 2))
+    (hex : ∀ i, os * kSeg - kSeg.tdiv 2 ≤ i → i ≤ os * kSeg + kSeg.tdiv 2 → ∃ s, p.seg? i = some s) :
+    ∃ og, ssrbOutSeg p kSeg os = some og :=
+  ssrbOutSeg_succeeds p kSeg os hk wf hex
 
 /-! ### the violation on the unchanged tree (C01's "LORs shifted" geometries): negative witness -/
 
@@ -365,6 +425,30 @@ example : zoomImage2 { zmin := 0, ymin := -1, xmin := -1, nz := 1, ny := 2, nx :
 example : fl32 ((2 : ℚ) / 2) = 1 ∧ fl32 (fl32 ((0 : ℚ) - 0) / 2) = ((0 : Int) : ℚ) ∧ fl32 (fl32 ((2 : ℚ) - 0) / 2) = ((1 : Int) : ℚ) ∧
     fl32 ((-1 : Int) : ℚ) = ((-1 : Int) : ℚ) := by decide +kernel
 
+/-! ## image grid sizes derived from float zooms (round 4)
+
+`VoxelsOnCartesianGrid(exam_info, proj_data_info, zooms, origin, sizes)` derives the x / y size of the image from the zoom when the size
+is given as `-1`: `2·(int)ceil(fov / voxel_size) + 1` with `voxel_size = bin_size / zoom`, everything in binary32 — for zooms like 1/3, 0.3,
+2.2 the quotient is an ulp off an integer.  The model (`voxelsFromProjData`) transcribes the float operations; the correspondence run
+(operation `voxsize`) compares index ranges, sizes and voxel sizes exactly. -/
+
+/-- "whenever the new grid covers the object": a size derived from the zoom gives the centred odd grid `-h … h` whose half-width `h`
+    (voxels) is the smallest integer not below the field-of-view radius in voxels as the source computes it (`fl32 (fov / voxel_size)`):
+    it covers that radius and exceeds it by less than one voxel.  (Stated for x; y is the same expression with `zy`.) -/
+theorem C15_voxels_size_from_zoom (rs bin fov : ℚ) (seg0 : Seg) (zz zy zx : ℚ) (sz sy : Int) (g : Grid)
+    (h : voxelsFromProjData rs bin fov seg0 zz zy zx sz sy (-1) = some g) (hq : 0 ≤ fl32 (fov / fl32 (bin / zx))) :
+    g.vx = fl32 (bin / zx) ∧
+    ∃ hx : Int, (g.nx : Int) = 2 * hx + 1 ∧ g.xmin = -hx ∧ fl32 (fov / g.vx) ≤ (hx : ℚ) ∧ (hx : ℚ) < fl32 (fov / g.vx) + 1 :=
+  voxels_derived_x rs bin fov seg0 zz zy zx sz sy g h hq
+
+/-- non-vacuity, and the float conversion "as it is": bin size 2 mm, zoom 0.6 (the binary32 number `5033165/2^23`, a hair above 3/5),
+    field of view 10 mm: the voxel size `fl32(2/zoom)` is 3.3333333, the binary32 quotient `10/voxel` rounds to exactly 3 and the size is
+    2·3+1 = 7 — exact arithmetic on the same inputs gives a quotient a hair above 3, i.e. `ceil` = 4 and size 9 -/
+example : (voxelsFromProjData 4 2 10 ⟨0, 0, 4⟩ 1 (5033165 / 8388608) (5033165 / 8388608) (-1) (-1) (-1)).map
+    (fun g => (g.zmin, g.ymin, g.xmin, g.nz, g.ny, g.nx)) = some (0, -3, -3, 7, 7, 7) ∧
+    ceilQ ((10 : ℚ) / (2 / (5033165 / 8388608))) = 4 := by decide +kernel
+example : (0 : ℚ) ≤ fl32 (10 / fl32 (2 / (5033165 / 8388608))) := by decide +kernel
+
 /-! ## `zoom_viewgram` / `zoom_viewgrams` -/
 
 /-- "the result does not depend on whether it is produced in one call or composed through the in-place and two-step variants", for
@@ -480,6 +564,20 @@ example : GroupWF exampleIn (1 * 3 - (3 : Int).tdiv 2) (1 * 3 + (3 : Int).tdiv 2
       rcases key j sj (by omega) h2 h4 with ⟨rfl, rfl⟩ | ⟨rfl, rfl⟩ | ⟨rfl, rfl⟩ <;>
       first | decide | omega
 
+
+/-- (round 4) the same group for the ring spacing of the GE Discovery ST family, 6.54 mm = the binary32 number `6857687/2^20`: the
+    source's `number_of_ms` evaluated exactly is 5, the number of axial positions of the output segment; input (segment 3, axial
+    position 1) has `m = 2` quarter ring spacings = `6857687/2^21` mm and so has output axial position 3 -/
+example : ssrbNumberOfMs [⟨2, 2, 3⟩, ⟨3, 3, 2⟩, ⟨4, 4, 1⟩] ⟨2, 2, 3⟩ (⟨2, 4, 5⟩ : Seg).inc (6857687 / 1048576) = 5 := by decide +kernel
+example : (⟨3, 3, 2⟩ : Seg).m4 1 = 2 ∧ (⟨2, 4, 5⟩ : Seg).m4 3 = 2 ∧
+    (⟨2, 4, 5⟩ : Seg).mMm (6857687 / 1048576) 3 = 6857687 / 2097152 ∧ (⟨3, 3, 2⟩ : Seg).mMm (6857687 / 1048576) 1 = 6857687 / 2097152 := by
+  decide +kernel
+example : ∀ i, 1 * 3 - (3 : Int).tdiv 2 ≤ i → i ≤ 1 * 3 + (3 : Int).tdiv 2 → ∃ s, exampleIn.seg? i = some s := by
+  intro i h1 h2
+  have h1' : (2 : Int) ≤ i := h1
+  have h2' : i ≤ (4 : Int) := h2
+  have : i = 2 ∨ i = 3 ∨ i = 4 := by omega
+  rcases this with rfl | rfl | rfl <;> exact ⟨_, rfl⟩
 
 /-- the same geometry rebinned with 3 segments, 2 views combined, no trimming: hypotheses of `C15_ssrb_commutes_with_binning` hold -/
 def exampleOut : PDI :=
